@@ -2,7 +2,8 @@
 import z3
 from pyvc.kinds import *
 from pyvc.dsl import FunctionSpec, Loop, forall, rng
-from specs.common import zabs
+from specs.common import zabs, same_list
+from specs.schema import SEG
 
 F = 'src/alignment/segment_chainer.py'
 NSEG = OBJ('AlignmentSegment')          # non-empty segments only (chain() filters the empty ones out)
@@ -26,10 +27,21 @@ def geometry(prev, cur):
     return rlen, qlen, rdist, qdist
 
 
+JN = z3.Function('join_is_minus_inf', Ref, Ref, Ref, z3.BoolSort())      # (scorer, previous, current)
+JV = z3.Function('join_value', Ref, Ref, Ref, z3.RealSort())
+
+
 def _gs_ensures(C, res):
     rlen, qlen, rdist, qdist = geometry(C.previousSegment, C.currentSegment)
     mult = C.self.segmentJoinMultiplier
-    return [('minus_infinity_exactly_when_overlap_exceeds_half_of_the_shorter',
+    det = []
+    if not C.has('F'):
+        # at call sites: getScore is a pure function of immutable objects, so its result is a function of the
+        # identities of its arguments (a definitional extension; listed as an assumption)
+        C._e.assumptions.add('SequentialityScorer.getScore is deterministic: its result is a function of (scorer, previous, current)')
+        a = (C.self.ref, C.previousSegment.ref, C.currentSegment.ref)
+        det = [('deterministic', z3.And(res.ninf == JN(*a), z3.Implies(z3.Not(res.ninf), res.v == JV(*a))))]
+    return det + [('minus_infinity_exactly_when_overlap_exceeds_half_of_the_shorter',
              res.ninf == z3.Or(-rdist > rlen / 2, -qdist > qlen / 2)),
             ('join_score_never_positive', z3.Implies(z3.And(z3.Not(res.ninf), mult >= 0), res.v <= 0)),
             ('contiguous_join_scores_zero', z3.Implies(z3.And(z3.Not(res.ninf), rdist == 0, qdist == 0), res.v == 0))]
@@ -47,4 +59,162 @@ getScore = FunctionSpec(
     note="-inf exactly when the overlap on one map exceeds half of the shorter segment; otherwise <= 0 (multiplier >= 0) and 0 for a contiguous join",
 )
 
-SPECS = [getScore]
+
+# ------------------------------------------------------------------ SegmentChainer.chain
+def _ch_requires(C):
+    S = C.segments
+    k = z3.Int('k')
+    return [('empty_segment_class_has_no_positions', forall(k, z3.Implies(z3.And(rng(0, k, S.len), S[k].isa('EmptyAlignmentSegment')),
+                                                                       S[k].positions.len == 0), [S.raw(k).t])),
+            ('nonempty_segments_have_a_pair', forall(k, z3.Implies(z3.And(rng(0, k, S.len), S[k].positions.len > 0),
+                                                                   S[k].alignedPositions.len >= 1), [S.raw(k).t]))]
+
+
+def _dp_facts(L, I, upto_only=True):
+    """Bellman facts for the pre-ordered segments with index < I"""
+    pre, cum, prv = L.preOrderedNonEmptySegments, L.cumulatedScore, L.previousSegmentIndexes
+    sc = L.self.sequentialityScorer.ref
+    k, l = z3.Int('k'), z3.Int('l')
+    score = lambda k: pre[k].segmentScore
+    jn = lambda l, k: JN(sc, pre.raw(l).t, pre.raw(k).t)
+    jv = lambda l, k: JV(sc, pre.raw(l).t, pre.raw(k).t)
+    ck = cum.raw(k)
+    return [
+        ('tables_have_one_entry_per_segment', z3.And(cum.len == pre.len, prv.len == pre.len)),
+        ('segments_are_nonempty', forall(k, z3.Implies(rng(0, k, pre.len), z3.And(pre[k].isa('AlignmentSegment'), pre[k].positions.len > 0,
+                                                                                  pre[k].alignedPositions.len >= 1)), [pre.raw(k).t])),
+        ('cumulated_scores_finite_and_at_least_own_score', forall(k, z3.Implies(rng(0, k, I), z3.And(
+            z3.Not(cum[k].ninf), cum[k].v >= score(k))), [cum.raw(k).v])),
+        ('predecessor_links', forall(k, z3.Implies(rng(0, k, I), z3.And(
+            z3.Implies(prv[k].none, cum[k].v == score(k)),
+            z3.Implies(z3.Not(prv[k].none), z3.And(0 <= prv[k].val, prv[k].val < k, z3.Not(jn(prv[k].val, k)),
+                                                   cum[k].v == cum[prv[k].val].v + jv(prv[k].val, k) + score(k))))),
+                                   [prv.raw(k).none])),      # not triggered by cum[...]: cum[prv[k]] would re-trigger it (matching loop)
+        ('bellman', forall([l, k], z3.Implies(z3.And(0 <= l, l < k, k < I, z3.Not(jn(l, k))),
+                                              cum[k].v >= cum[l].v + jv(l, k) + score(k)), [MP(cum.raw(l).v, cum.raw(k).v)])),
+    ]
+
+
+def _ch_outer(L):
+    I = L.for_0
+    cum = L.cumulatedScore
+    best = L.bestPreviousSegmentIndex
+    k = z3.Int('k')
+    prv = L.previousSegmentIndexes
+    return _dp_facts(L, I) + [
+        ('untouched_entries_have_no_predecessor', forall(k, z3.Implies(z3.And(I <= k, k < prv.len), prv[k].none), [prv.raw(k).none])),
+        ('best_index', z3.And(0 <= best, z3.Implies(I == 0, best == 0), z3.Implies(I > 0, best < I))),
+        ('best_is_maximal_so_far', forall(k, z3.Implies(rng(0, k, I), cum[best].v >= cum[k].v), [cum.raw(k).v]))]
+
+
+def _ch_inner(L):
+    I, J = L.for_0, L.for_1
+    pre, cum, prv = L.preOrderedNonEmptySegments, L.cumulatedScore, L.previousSegmentIndexes
+    sc = L.self.sequentialityScorer.ref
+    best = L.bestPreviousSegmentIndex
+    k, l = z3.Int('k'), z3.Int('l')
+    jn = lambda l, k: JN(sc, pre.raw(l).t, pre.raw(k).t)
+    jv = lambda l, k: JV(sc, pre.raw(l).t, pre.raw(k).t)
+    p = prv[I]
+    return _dp_facts(L, I) + [
+        ('loop_targets', z3.And(L.i == I, L.currentSegment.ref == pre.raw(I).t, I < pre.len)),
+        ('untouched_entries_have_no_predecessor', forall(k, z3.Implies(z3.And(I < k, k < prv.len), prv[k].none), [prv.raw(k).none])),
+        ('best_index', z3.And(0 <= best, z3.Implies(I == 0, best == 0), z3.Implies(I > 0, best < I))),
+        ('best_is_maximal_so_far', forall(k, z3.Implies(rng(0, k, I), cum[best].v >= cum[k].v), [cum.raw(k).v])),
+        ('running_entry', z3.And(z3.Not(cum[I].ninf), cum[I].v >= 0,
+                                 z3.Implies(p.none, cum[I].v == 0),
+                                 z3.Implies(z3.Not(p.none), z3.And(0 <= p.val, p.val < J, z3.Not(jn(p.val, I)),
+                                                                   cum[I].v == cum[p.val].v + jv(p.val, I))))),
+        ('running_entry_dominates_scanned', forall(l, z3.Implies(z3.And(rng(0, l, J), z3.Not(jn(l, I))),
+                                                                 cum[I].v >= cum[l].v + jv(l, I)), [cum.raw(l).v]))]
+
+
+def _ch_back(L):
+    pre, cum, prv = L.preOrderedNonEmptySegments, L.cumulatedScore, L.previousSegmentIndexes
+    sc = L.self.sequentialityScorer.ref
+    res, ridx = L.result, L.ridx
+    best = L.bestPreviousSegmentIndex
+    n = pre.len
+    t, t2, k = z3.Int('t'), z3.Int('t2'), z3.Int('k')
+    jn = lambda l, k: JN(sc, pre.raw(l).t, pre.raw(k).t)
+    m = res.len
+    return _dp_facts(L, n) + [
+        ('final_best', forall(k, z3.Implies(rng(0, k, n), cum[L.b0].v >= cum[k].v), [cum.raw(k).v])),
+        ('head', z3.And(0 <= best, best < n, m >= 1, ridx.len == m, ridx[0] == best, ridx[m - 1] == L.b0, 0 <= L.b0, L.b0 < n)),
+        ('members', forall(t, z3.Implies(rng(0, t, m), z3.And(0 <= ridx[t], ridx[t] < n, res.raw(t).t == pre.raw(ridx[t]).t)), [ridx[t]])),
+        ('strictly_increasing', forall([t, t2], z3.Implies(z3.And(0 <= t, t < t2, t2 < m), ridx[t] < ridx[t2]), [MP(ridx[t], ridx[t2])])),
+        ('linked', forall(t, z3.Implies(z3.And(0 <= t, t + 1 < m), z3.And(z3.Not(prv[ridx[t + 1]].none), prv[ridx[t + 1]].val == ridx[t],
+                                                                          z3.Not(jn(ridx[t], ridx[t + 1])))), [ridx[t + 1]])),
+        ('telescoped_total', cum[L.b0].v == cum[best].v - pre[best].segmentScore + L.tot)]
+
+
+def _ch_init_back(L):
+    e = L._e
+    best = L.bestPreviousSegmentIndex
+    L.set('b0', best)
+    L.set('tot', L.preOrderedNonEmptySegments[best].segmentScore)
+    L.set('ridx', e.list_of(L._st, [VInt(best)]))
+
+
+def _ch_insert(L):
+    e = L._e
+    pre = L.preOrderedNonEmptySegments
+    sc = L.self.sequentialityScorer.ref
+    new = L.bestPreviousSegmentIndex
+    old_head = L.ridx[0]
+    L.set('tot', L.tot + JV(sc, pre.raw(new).t, pre.raw(old_head).t) + pre[new].segmentScore)
+    L.set('ridx', e.concat(L._st, e.list_of(L._st, [VInt(new)]), L.raw('ridx')))
+
+
+def _ch_ensures(C, res):
+    S = C.segments
+    k = z3.Int('k')
+    if not C.has('F'):
+        return [('same_or_fewer_segments', res.len <= S.len)]
+    F_ = C.F
+    if not F_.has('result'):
+        # no non-empty segment: the empty ones are returned
+        E = F_.emptySegments
+        return [('only_empty_segments_returned', z3.And(same_list(res, E), F_.preOrderedNonEmptySegments.len == 0))]
+    pre, cum, prv, E, ridx = F_.preOrderedNonEmptySegments, F_.cumulatedScore, F_.previousSegmentIndexes, F_.emptySegments, F_.ridx
+    sc = C.self.sequentialityScorer.ref
+    m = ridx.len
+    n = pre.len
+    t, t2, l, T = z3.Int('t'), z3.Int('t2'), z3.Int('l'), z3.Real('T')
+    jn = lambda l, k: JN(sc, pre.raw(l).t, pre.raw(k).t)
+    jv = lambda l, k: JV(sc, pre.raw(l).t, pre.raw(k).t)
+    score = lambda k: pre[k].segmentScore
+    b0 = F_.b0
+    return [
+        ('chain_then_empty_segments', z3.And(res.len == m + E.len, m >= 1,
+                                            forall(t, z3.Implies(rng(0, t, E.len), res.raw(m + t).t == E.raw(t).t), [E.raw(t).t]))),
+        ('chain_members_are_distinct_segments_in_diagonal_order', z3.And(
+            forall(t, z3.Implies(rng(0, t, m), z3.And(0 <= ridx[t], ridx[t] < n, res.raw(t).t == pre.raw(ridx[t]).t)), [ridx[t]]),
+            forall([t, t2], z3.Implies(z3.And(0 <= t, t < t2, t2 < m), ridx[t] < ridx[t2]), [MP(ridx[t], ridx[t2])]))),
+        ('consecutive_members_are_never_joined_by_minus_infinity',
+         forall(t, z3.Implies(z3.And(0 <= t, t + 1 < m), z3.Not(jn(ridx[t], ridx[t + 1]))), [ridx[t + 1]])),
+        ('chain_total_is_finite_and_equals_best_cumulated_score', z3.And(F_.tot == cum[b0].v, z3.Not(cum[b0].ninf))),
+        # optimality: induction over the length of an arbitrary order-respecting selection ending at k
+        ('optimality_base_single_segment', forall(k, z3.Implies(rng(0, k, n), score(k) <= cum[k].v), [cum.raw(k).v])),
+        ('optimality_step_extend_by_admissible_join', forall([l, k, T], z3.Implies(
+            z3.And(0 <= l, l < k, k < n, z3.Not(jn(l, k)), T <= cum[l].v), T + jv(l, k) + score(k) <= cum[k].v),
+            [MP(cum.raw(l).v, cum.raw(k).v, T + 0)] if False else None)),
+        ('optimality_final_best_dominates_every_end', forall(k, z3.Implies(rng(0, k, n), cum[k].v <= cum[b0].v), [cum.raw(k).v])),
+    ]
+
+
+chain = FunctionSpec(
+    file=F, qualname='SegmentChainer.chain', params=dict(self=OBJ('SegmentChainer'), segments=LIST(SEG)), returns=LIST(SEG),
+    requires=_ch_requires, ensures=_ch_ensures,
+    loops={'for#0': Loop(inv=_ch_outer, kinds={'previousSegmentIndexes': LIST(OPT(INT)), 'cumulatedScore': LIST(EXT)}),
+           'for#1': Loop(inv=_ch_inner, kinds={'previousSegmentIndexes': LIST(OPT(INT)), 'cumulatedScore': LIST(EXT)}),
+           'while#0': Loop(inv=_ch_back, kinds={'previousSegmentIndexes': LIST(OPT(INT))})},
+    ghost={'ridx': lambda C: C._e.fresh_list(INT, 'ridx', n=z3.IntVal(0)), 'tot': lambda C: z3.RealVal(0), 'b0': lambda C: z3.IntVal(0)},
+    ghost_at={'assign#10': _ch_init_back, 'call#6': _ch_insert},
+    inline={'initialOrderingKey'},
+    serves=('C14', 'C01'),
+    note="dynamic programme over the pre-ordered non-empty segments: Bellman invariants on extended reals; the returned chain is a strictly "
+         "increasing selection linked by finite joins whose total equals the maximal cumulated score; optimality by induction (base/step/final)",
+)
+
+SPECS = [getScore, chain]
